@@ -17,6 +17,7 @@ from circuits.web.http import HTTP
 from circuits.web.dispatchers import Dispatcher
 from circuits.web import Controller
 from circuits.web.wsgi import Gateway
+from circuits.web.exceptions import Redirect
 from circuits.net.events import read
 from circuits.web.constants import HTTP_STATUS_CODES
 
@@ -28,7 +29,7 @@ except Exception:       # a rename degrades the observable instead of raising
     pass
 
 CONTENT = ('str', 'bytes', 'list', 'yield', 'iter', 'file', 'rstream', 'wsgi_list', 'wsgi_gen', 'wsgi_write')
-ERRORS = ('none', 'forbidden', 'redirect', 'raise', 'yield0')   # yield0: generator handler that never yields
+ERRORS = ('none', 'forbidden', 'redirect', 'raise', 'yield0', 'redirect304', 'raise_redirect')   # yield0: generator handler that never yields
 WSGI = ('wsgi_list', 'wsgi_gen', 'wsgi_write')
 ITER = ('iter', 'file', 'rstream', 'wsgi_gen')       # body is an iterator whose length prepare() does not compute
 REQ_COOKIES = ['a=1', 'b=2']              # Cookie: a=1; b=2 is echoed by Response.prepare as Set-Cookie lines
@@ -160,6 +161,10 @@ class Root(Controller):
             return self.forbidden()
         if k == 'redirect':
             return self.redirect('/t')
+        if k == 'redirect304':
+            return self.redirect('/t', 304)
+        if k == 'raise_redirect':
+            raise Redirect('/t')
         raise ValueError(k)
 
 
@@ -248,8 +253,17 @@ def wsgi_app(environ, start_response):
     return _gen(ps)
 
 
+PATHS = {'dotdot': '/x/../', 'dslash': '//'}    # request paths not in normal form: HTTP._on_read answers 301 itself
+
+
+def guard301(r):
+    """the request is answered by the server's own redirect to the normal form of the path, not by the handler"""
+    return r.get('path') in PATHS and r['h']['kind'] not in WSGI
+
+
 def req_bytes(i, r):
-    s = '%s /%s?i=%d HTTP/%s\r\n' % (r['m'], 'w' if r['h']['kind'] in WSGI else '', i, r['v'])
+    path = PATHS[r['path']] if guard301(r) else '/'
+    s = '%s %s%s?i=%d HTTP/%s\r\n' % (r['m'], path, 'w' if r['h']['kind'] in WSGI else '', i, r['v'])
     s += 'Host: x\r\n'
     if r.get('cookie'):
         s += 'Cookie: %s\r\n' % '; '.join(REQ_COOKIES)
@@ -409,7 +423,39 @@ class C15(Prop):
              'conn': rng.choice([None, None, 'close', 'keep-alive', 'keep-alive']), 'h': h}
         if rng.random() < 0.25:
             r['cookie'] = True
+        if rng.random() < 0.06:
+            r['path'] = rng.choice(sorted(PATHS))
         return r
+
+    # answers the server or errors.py make (all of them close the connection today) and body-less ones, as
+    # predecessors of further requests: every follow-up must get ITS OWN answer whatever preceded it
+    PREDECESSORS = [('path', 'dotdot'), ('path', 'dslash'), ('kind', 'none'), ('kind', 'forbidden'), ('kind', 'redirect'),
+                    ('kind', 'raise'), ('kind', 'raise_redirect'), ('kind', 'redirect304'), ('kind', 'yield0'),
+                    ('status', 304), ('status', 204), ('status', 404), ('status', 301)]
+
+    def followups(self, rng, n_each=1):
+        cases = []
+        for (what, val), v, m0 in itertools.product(self.PREDECESSORS, ['1.1', '1.0'], ['GET', 'HEAD']):
+            for _ in range(n_each):
+                if what == 'kind':
+                    h0 = {'kind': val, 'tag': '0a', 'status': None, 'chunks': [], 'stream': False}
+                else:
+                    h0 = {'kind': 'str', 'tag': '0a', 'status': val if what == 'status' else None,
+                          'chunks': [['s', 'first', 1]], 'stream': False}
+                r0 = {'m': m0, 'v': v, 'conn': 'keep-alive', 'h': h0}
+                if what == 'path':
+                    r0['path'] = val
+                if rng.random() < 0.3:
+                    r0['cookie'] = True
+                reqs = [r0]
+                for j in (1, 2):
+                    h = self._handler(rng, rng.choice(['str', 'bytes', 'list', 'iter', 'rstream', 'none', 'redirect']), True)
+                    h['tag'] = '%d%s' % (j, 'bc'[j - 1])
+                    reqs.append({'m': rng.choice(['GET', 'GET', 'HEAD']), 'v': v, 'conn': 'keep-alive' if j == 1 else None, 'h': h})
+                    if rng.random() < 0.15:
+                        reqs[-1]['path'] = rng.choice(sorted(PATHS))
+                cases.append({'reqs': reqs})
+        return cases
 
     def product(self, tier='thorough'):
         cases = []
@@ -470,6 +516,7 @@ class C15(Prop):
             for v, m in (('1.0', 'GET'), ('1.1', 'HEAD')):
                 cases.append({'reqs': [{'m': m, 'v': v, 'conn': 'keep-alive', 'h': h},
                                        {'m': 'GET', 'v': v, 'conn': None, 'h': self._handler(rng, 'str', True)}]})
+        cases += self.followups(rng, 1 if tier != 'thorough' else 4)
         for kind in ('none', 'raise', 'yield0', 'yield', 'list'):
             h = {'kind': kind, 'tag': '4', 'status': None, 'chunks': self._bodies.get(kind, []), 'stream': False, 'cookie': True}
             cases.append({'reqs': [{'m': 'GET', 'v': '1.1', 'conn': None, 'cookie': True, 'h': h}]})
@@ -483,6 +530,7 @@ class C15(Prop):
                     r['conn'] = rng.choice([None, 'keep-alive']) if r['v'] == '1.1' else 'keep-alive'
                     if r['h']['kind'] in ERRORS and rng.random() < 0.7:
                         r['h'] = self._handler(rng, rng.choice(CONTENT))
+                r['h']['tag'] = '%d-%s' % (j, r['h']['tag'])      # every request of a connection is recognisable
                 reqs.append(r)
             cases.append({'reqs': reqs})
         st = {}
@@ -537,7 +585,7 @@ class C15(Prop):
         return out
 
     # ------------------------------------------------------------------ model side
-    def _cfg(self, r, ob):
+    def _cfg(self, r, ob, i=0):
         """request + handler spec (+ for errors.py bodies the observed body) -> Coq cfg term; None = not modelled"""
         h = r['h']
         k = h['kind']
@@ -551,6 +599,11 @@ class C15(Prop):
         close0 = wants_close(r)
         sized, stream = True, bool(h.get('stream'))
         chunks = []
+        if guard301(r):
+            # answered by HTTP._on_read itself; the handler never runs
+            k = 'guard301'
+            pre = [('Content-Type', 'text/html'), ('Location', 'http://x/?i=%d' % i)]
+            cookies = REQ_COOKIES if r.get('cookie') else []
         if k in ('str', 'bytes'):
             b = b''.join(piece_bytes(p) for p in h['chunks'])
             if len(h['chunks']) != 1:
@@ -598,10 +651,13 @@ class C15(Prop):
                 chunks = [nlist(b[j:j + BUFSIZE]) for j in range(0, len(b), BUFSIZE)]
         else:
             close0 = True
+            sized, stream = True, False
             if r['m'] == 'HEAD' or ob is None or len(ob['w']) < 1:
                 return None
-            status = {'none': 404, 'yield0': 404, 'raise': 500, 'forbidden': 403, 'redirect': 303 if r['v'] == '1.1' else 302}[k]
-            if k == 'redirect':
+            see_other = 303 if r['v'] == '1.1' else 302
+            status = {'none': 404, 'yield0': 404, 'raise': 500, 'forbidden': 403, 'redirect': see_other, 'raise_redirect': see_other,
+                      'redirect304': 304, 'guard301': 301}[k]
+            if k in ('redirect', 'raise_redirect'):
                 pre += [('Content-Type', 'text/html'), ('Location', 'http://x/t')]
             # the error page is written by errors.py, not by the application: only its length is modelled
             n = sum(len(w) for w in ob['w'][1:])
@@ -619,8 +675,8 @@ class C15(Prop):
         if isinstance(obs, dict):
             return None
         terms = []
-        for r, ob in zip(c['reqs'], obs):
-            t = self._cfg(r, ob)
+        for i, (r, ob) in enumerate(zip(c['reqs'], obs)):
+            t = self._cfg(r, ob, i)
             if t is None:
                 return None
             terms.append(t)
@@ -692,10 +748,10 @@ class C15(Prop):
             return None          # crash: reported by the framework
         for i, (r, ob) in enumerate(zip(c['reqs'], obs)):
             h = r['h']
-            what = self._oracle1(r, h, ob)
+            what = self._oracle1(r, h, ob, i)
             if what:
-                return 'request %d (%s HTTP/%s Connection:%s, handler %s status %s stream %s): %s' % (
-                    i, r['m'], r['v'], r.get('conn'), h['kind'], h['status'], h.get('stream'), what)
+                return 'request %d (%s %s HTTP/%s Connection:%s, handler %s status %s stream %s): %s' % (
+                    i, r['m'], PATHS.get(r.get('path'), '/'), r['v'], r.get('conn'), h['kind'], h['status'], h.get('stream'), what)
         n_expected = len(c['reqs'])
         for i, ob in enumerate(obs):
             if ob['closed']:
@@ -705,7 +761,7 @@ class C15(Prop):
             return 'answered %d requests, expected %d' % (len(obs), n_expected)
         return None
 
-    def _oracle1(self, r, h, ob):
+    def _oracle1(self, r, h, ob, idx=0):
         data = b''.join(w.encode('latin1') for w in ob['w'])
         if not data:
             return 'no response written'
@@ -713,7 +769,7 @@ class C15(Prop):
             status, headers, body, will_close, consumed = client_decode(data, r['m'])
         except Exception as e:
             return 'independent client cannot parse the response: %s %s' % (type(e).__name__, e)
-        k = h['kind']
+        k = 'guard301' if guard301(r) else h['kind']
         if k in CONTENT:
             exp_status = h['status'] if h['status'] is not None else 200
             if status != exp_status:
@@ -728,17 +784,22 @@ class C15(Prop):
             elif body != exp:
                 return 'body (%d bytes) differs from what the application produced (%d bytes)' % (len(body), len(exp))
         else:
-            exp_status = {'none': (404,), 'yield0': (404,), 'raise': (500,), 'forbidden': (403,), 'redirect': (302, 303)}[k]
+            exp_status = {'none': (404,), 'yield0': (404,), 'raise': (500,), 'forbidden': (403,), 'redirect': (302, 303),
+                          'raise_redirect': (302, 303), 'redirect304': (304,), 'guard301': (301,)}[k]
             if status not in exp_status:
-                return 'status %d, expected %r' % (status, exp_status)
-            if r['m'] == 'HEAD' and (body != b'' or consumed != len(data)):
-                return 'HEAD response carries body bytes'
+                return 'status %d, but this request must be answered with %r (%s)' % (status, exp_status, k)
+            if (r['m'] == 'HEAD' or status == 304) and (body != b'' or consumed != len(data)):
+                return 'HEAD/304 response carries body bytes'
+            loc = {'redirect': 'http://x/t', 'raise_redirect': 'http://x/t', 'guard301': 'http://x/?i=%d' % idx}.get(k)
+            if loc and ('Location', loc) not in [(a.title(), b) for a, b in headers]:
+                return 'redirect without Location: %s (this request\'s own target)' % loc
         if r['v'] == '1.0' and any(a.lower() == 'transfer-encoding' for a, b in headers):
             return 'chunked transfer encoding sent to an HTTP/1.0 client'
-        if ('X-Tag', h['tag']) not in [(a.title(), b) for a, b in headers]:
-            return 'application header X-Tag: %s not recovered' % h['tag']
+        tags = [b for a, b in headers if a.title() == 'X-Tag']
+        if tags != ([] if k == 'guard301' else [h['tag']]):
+            return 'application header X-Tag %r, this request\'s handler set %r' % (tags, h['tag'])
         set_cookies = [b for a, b in headers if a.lower() == 'set-cookie']
-        want = (REQ_COOKIES if r.get('cookie') else []) + ([APP_COOKIE] if h.get('cookie') else [])
+        want = (REQ_COOKIES if r.get('cookie') else []) + ([APP_COOKIE] if h.get('cookie') and k != 'guard301' else [])
         if set_cookies != want:
             return 'Set-Cookie lines %r, expected %r' % (set_cookies, want)
         if consumed != len(data):
@@ -760,7 +821,7 @@ class C15(Prop):
         return len(obs) >= 2 or any(len(ob['w']) >= 2 for ob in obs)
 
     def search(self, rng, tier):
-        return self.generate(rng, 1500, 'thorough')
+        return self.followups(rng, 6) + self.generate(rng, 1500, 'thorough')
 
 
 if __name__ == '__main__':
